@@ -92,6 +92,8 @@ type contactSpec struct {
 	Groups   []int             `json:"groups"`
 	Fields   map[string]string `json:"fields"` // key -> raw text (stored values are what the real parser makes of it)
 	Ticket   *ticketSpec       `json:"ticket,omitempty"`
+	// repeated entries of Groups are stored under a stale name (same uuid, other name) instead of the identical reference
+	StaleGroupNames bool `json:"stale_group_names,omitempty"`
 }
 
 type modSpec struct {
@@ -263,8 +265,15 @@ func (u *universe) buildContact(c *contactSpec) (*flows.Contact, error) {
 		us[i] = urns.URN(s)
 	}
 	refs := make([]*assets.GroupReference, len(c.Groups))
+	seenGroup := map[int]int{}
 	for i, g := range c.Groups {
-		refs[i] = assets.NewGroupReference(assets.GroupUUID(groupUUID(g)), u.spec.Groups[g].Name)
+		name := u.spec.Groups[g].Name
+		// a repeated reference may carry the name the group had when that copy was stored (the group was renamed since)
+		if n := seenGroup[g]; n > 0 && c.StaleGroupNames {
+			name = fmt.Sprintf("%s (old name %d)", name, n)
+		}
+		seenGroup[g]++
+		refs[i] = assets.NewGroupReference(assets.GroupUUID(groupUUID(g)), name)
 	}
 	var ticket *flows.Ticket
 	if c.Ticket != nil {
@@ -581,6 +590,7 @@ func genContact(r *hx.Rand, u *uniSpec) *contactSpec {
 	}
 	if len(c.Groups) > 0 && r.Chance(1, 15) { // a reference repeated in the stored contact
 		c.Groups = append(c.Groups, hx.Pick(r, c.Groups))
+		c.StaleGroupNames = r.Bool()
 	}
 	for _, f := range fieldDefs {
 		if r.Chance(2, 5) {
